@@ -187,13 +187,72 @@ def _has_container(v):
     return isinstance(v, dict) and v.get("t") in ("d", "l")
 
 
+def root_results(run):
+    """Results of ROOT-level (), values(), items() - unbuffered and inside both kinds of buffered context of
+    both strategies: the user scribbles over the result; a second call, ==, another object of the same resource and
+    the backend must not show it."""
+    for spec in env.matrix():
+        modes = [None] + (["backend", "object"] if spec.strategy else [])
+        doc = {"a": {"x": [1, 2]}, "b": [3, {"y": 4}], "c": 5} if spec.kind == "d" else [{"x": [1, 2]}, [3, {"y": 4}], 5]
+        for mode in modes:
+            for what in ("call", "values", "items"):      # (iteration yields live children: writing through them is C01)
+                if spec.kind == "l" and what in ("values", "items"):
+                    continue
+                env.reset_class_state()
+                res = spec.new_resource()
+                ctx = None
+                try:
+                    res.write_raw(copy.deepcopy(doc))
+                    o, o2 = res.new_object(), res.new_object()
+                    if mode == "backend":
+                        ctx = spec.cls.buffer_backend()
+                        ctx.__enter__()
+                    elif mode == "object":
+                        ctx = o.buffered
+                        ctx.__enter__()
+                    r = o() if what == "call" else (list(o.values()) if what == "values" else
+                                                    (list(o.items()) if what == "items" else list(iter(o))))
+                    probs = []
+                    if what in ("call", "values", "items") and not realize.result_is_builtin(r):
+                        probs.append(f"result of root {what} is not plain built-in data: {r!r}")
+                    for c in containers_in(r):
+                        scribble(c)
+                    again = o()
+                    if not val.same_typed(again, doc):
+                        probs.append(f"after the user changed the result of root {what}, the collection reads {again!r}")
+                    if not (o == doc):
+                        probs.append(f"after the user changed the result of root {what}, collection == original content is False")
+                    if mode != "object":
+                        other = o2()
+                        if not val.same_typed(other, doc):
+                            probs.append(f"after the user changed the result of root {what}, another object of the resource reads {other!r}")
+                    if ctx is not None:
+                        ctx.__exit__(None, None, None)
+                        ctx = None
+                    raw = res.read_raw()
+                    if not val.same_typed(raw, doc):
+                        probs.append(f"after the user changed the result of root {what}, the backend holds {raw!r}")
+                    for p_ in probs[:1]:
+                        run.violation({"cls": spec.name, "mode": f"root-result[{mode}]", "op": what, "aspect": "alias", "detail": p_})
+                    run.case(("root-result", spec.name, mode, what))
+                finally:
+                    if ctx is not None:
+                        try:
+                            ctx.__exit__(None, None, None)
+                        except Exception:  # noqa: BLE001
+                            pass
+                    res.dispose()
+    env.reset_class_state()
+
+
 def check_C16(tier):
     run = common.Run("C16", tier)
     run.cov["rule"] = ("every edge of MC_PyOps whose operation takes a container argument or returns detached data, "
                        "executed on a collection nested in a dict root; afterwards every container reachable from "
                        "the user-held argument / result is mutated and collection() and the raw backend must be "
                        "unchanged; arguments are also passed as live synced children of the same tree and of "
-                       "another collection, in which case source and stored copy must be independent both ways")
+                       "another collection, in which case source and stored copy must be independent both ways; root-level (), "
+                       "values(), items() unbuffered and inside both kinds of buffered context")
     run.assumptions += ["bounded values as in spec/MC_PyOps.tla", "Redis/MongoDB/Zarr on fakes"]
     rnd = random.Random(common.seed())
     jobs_by_spec = {}
@@ -245,6 +304,7 @@ def check_C16(tier):
     run.cov["evaluations"] += total
     run.cov["traces_validated_against_impl"] += total
     run.cov["classes"] = sorted(jobs_by_spec)
+    root_results(run)
     run.sample({"mode": "synced_same", "root": {"p": {"a": 1}, "src": [1]}, "op": "root['p']['b'] = root['src']",
                 "then": "root['src'].append(..) must not show under root['p']['b']"})
     return run.finish()
